@@ -101,6 +101,19 @@ func newEvent(eventType string, ts time.Time, payload interface{}) (Event, error
 	return Event{Type: eventType, TS: formatTime(ts), Data: data}, nil
 }
 
+// takenIDs returns every id a new item must not get: live items and pruned (tombstoned) ones.
+// Replay drops creates of tombstoned ids, so re-issuing one would silently lose the new item.
+func takenIDs(graph *Graph) map[string]*Task {
+	taken := make(map[string]*Task, len(graph.Tasks)+len(graph.Tombstones))
+	for id, task := range graph.Tasks {
+		taken[id] = task
+	}
+	for id := range graph.Tombstones {
+		taken[id] = nil
+	}
+	return taken
+}
+
 func newShortID(existing map[string]*Task) (string, error) {
 	const maxAttempts = 64
 	for i := 0; i < maxAttempts; i++ {
